@@ -849,7 +849,7 @@ theorem exec_route_passthrough {name : Asset → String} {w w' : World} {s d amt
   simp only [exec, bind_ok_iff, pure_ok_iff, Prod.mk.injEq] at h
   obtain ⟨w2, h, rfl, _⟩ := h
   simp only [routerExec, bind_ok_iff] at h
-  obtain ⟨w0, hat, h⟩ := h
+  obtain ⟨w0, hat, _, _, h⟩ := h
   obtain ⟨hnz, hm⟩ := attach_single_ok hat
   obtain ⟨target, q, e1, e2, e3, e4, e5, e6⟩ :=
     tx_core hok hfirst h0 hsr hsp (attach_same hat).1 (sameToks_of_tok_eq (attach_same hat).2)
@@ -882,7 +882,8 @@ theorem exec_tokSend_passthrough {name : Asset → String} {w w' : World} {t s a
     rw [Option.isNone_iff_eq_none] at hrn; rw [hrn]; simp
   simp only [exec, tokSend, if_neg hrn', if_true, bind_ok_iff, pure_ok_iff, Prod.mk.injEq] at h
   obtain ⟨w0, htr, w2, h, rfl, _⟩ := h
-  simp only [routerReceive] at h
+  obtain ⟨_, _, _, he, _, _, h⟩ := routerReceive_ok h
+  cases he
   obtain ⟨hnz, hle, _⟩ := tokTransfer_effect hsr htr
   obtain ⟨target, q, e1, e2, e3, e4, e5, e6⟩ :=
     tx_core hok hfirst h0 hsr hsp (tokTransfer_same htr).1 (tokTransfer_sameToks htr)
@@ -918,7 +919,7 @@ theorem exec_route_effect {name : Asset → String} {w w' : World} {s d amt : Na
   simp only [exec, bind_ok_iff, pure_ok_iff, Prod.mk.injEq] at h
   obtain ⟨w2, h, rfl, _⟩ := h
   simp only [routerExec, bind_ok_iff] at h
-  obtain ⟨w0, hat, h⟩ := h
+  obtain ⟨w0, hat, _, _, h⟩ := h
   obtain ⟨hnz, hm⟩ := attach_single_ok hat
   obtain ⟨target, q, e1, e2, e3⟩ :=
     tx_effect hok hrr hfirst h0 hsr hsp (attach_same hat).1 (sameToks_of_tok_eq (attach_same hat).2)
@@ -958,7 +959,8 @@ theorem exec_tokSend_effect {name : Asset → String} {w w' : World} {t s amt : 
     · cases h2
   · simp only [if_true, bind_ok_iff, pure_ok_iff, Prod.mk.injEq] at h
     obtain ⟨w0, htr, w2, h, rfl, _⟩ := h
-    simp only [routerReceive] at h
+    obtain ⟨_, _, _, he, _, _, h⟩ := routerReceive_ok h
+    cases he
     obtain ⟨hnz, hle, _⟩ := tokTransfer_effect hsr htr
     obtain ⟨target, q, e1, e2, e3⟩ :=
       tx_effect hok hrr hfirst h0 hsr hsp (tokTransfer_same htr).1 (tokTransfer_sameToks htr)
